@@ -229,6 +229,15 @@ def fallback_bounded(pid):
                               k['tail'], {'has_input': bool(k.get('playback')), 'checker_cmd': k['cmd'], 'failed_checks': k['failed_checks'],
                                           'concrete_playback': k.get('playback'), 'bounded': k['bound']}))
         return {'kani': k, 'violations': viol}
+    if pid in ('C05', 'C02'):
+        k = run_kani_moves(dr.REPO, ['key_is_function_of_position_two_ply', 'two_ply_apply_undo_board_a'])
+        k['bound'] = 'board_a of kani/moves.rs, six fixed first moves x a symbolic reply: key == key of the same position set up directly; key restored by undo; public API only'
+        viol = []
+        if k['result'] == 'FAILED':
+            viol.append(_viol(pid, 'kani-bounded', 'position key (public API)', 'kani-assertion', ','.join(k['failed_harnesses']) or 'key',
+                              k['tail'], {'has_input': bool(k.get('playback')), 'checker_cmd': k['cmd'], 'failed_checks': k['failed_checks'],
+                                          'concrete_playback': k.get('playback'), 'bounded': k['bound']}))
+        return {'kani': k, 'violations': viol}
     if pid not in FALLBACK_PROPS:
         return None
     k = run_kani_moves(dr.REPO, MOVE_HARNESSES)
